@@ -281,7 +281,9 @@ CHECKS['C14']['text'] += ('  managed(obj) without a typeid called concurrently i
                           'process whose Server.create is delayed are validated against ManagedRegTrace.')
 CHECKS['C14']['technique'] += '; spec ManagedReg for concurrent managed() calls with TLC trace validation of real clients'
 CHECKS['C17']['text'] += ('  Process leg: also a single consumer that calls renew() on its own the moment its iteration ends, with '
-                          'helper queues that deliver slowly (tokens still in flight).')
+                          'helper queues that deliver slowly (tokens still in flight); what renew() does on the helper queues is recorded '
+                          'and validated against spec/RenewTokens.tla (a put is counted at once, delivered later; recycling "until empty()" is '
+                          'refuted by TLC).')
 CHECKS['C07']['text'] += ('  TLC behaviours reaching "cancel inside the check/set window while another request waits for a slot" are '
                           'steered into the real threads (scripted timer expiry, requests enter when the behaviour lets them).')
 
